@@ -285,12 +285,15 @@ MUST_FIRE += [
     ("m113", ["C10", "C12"], ["W5"], rep1(S + "tomography.py", "            z_pauli = z_pauli_from_bitstring(num_qubits, i)", "            z_pauli = z_pauli_from_bitstring(counts, i)"), "Z mask built with the counts dictionary as width"),
     ("m114", ["C10", "C12"], ["W14"], rep1(S + "tomography.py", "        return full_expectation_values", "        return None"), "embedded expectation values computed but not returned"),
     ("m115", ["C11"], ["B3"], rep1(S + "tomography.py", "            for index, qubit in enumerate(qubits):\n                new_key[qubit] = key[index]\n", "            new_key.z[list(qubits)] = key.z\n            new_key.x[list(qubits)] = key.x\n"), "re-embedding through the z/x arrays only: the phase unit of every Y factor is lost"),
+    ("m116", ["C04", "C17"], ["K2"], rep1(S + "circuit_lookup.py", "        self.depth = int(components[2])", "        self.depth = int(min(components[1:3]))"), "depth clamped by a string comparison of the two columns"),
+    ("m117", ["C18"], ["K17b"], rep1(S + "f2_algebra.py", "    return len(rref(A)[1])", "    return int(np.trace(rref(A)[0]))"), "rank read off the diagonal of the reduced matrix"),
     ("m95", ["C19"], ["K12"], rep1(S + "graph.py", "    def compress(self) -> int:", "    def compress(self) -> int:\n        if getattr(self, \"_id\", None) is not None:\n            return self._id\n        self._id = self._compress()\n        return self._id\n\n    def _compress(self) -> int:"), "graph id remembered by the object and never invalidated"),
     ("m72", ["C13"], ["A3"], rep1(S + "circuit_lookup.py", "result.circuits = [circuit.copy() for circuit in self.circuits]", "result.circuits = list(self.circuits)"), "fresh list of the cached circuits"),
 ]
 
 MUST_STAY_SILENT = [
     # id, properties to run, edit, exit 2 tolerated?, note
+    ("s32", ["C04", "C17"], rep1(S + "circuit_lookup.py", "        self.depth = int(components[2])", "        self.depth = min(int(components[2]), max(int(components[1]), int(components[2])))"), False, "depth computed, equal to its column on every shipped line"),
     ("s31", ["C18"], rep1(S + "f2_algebra.py", "    while h < m and k < n:\n        found = False\n        i = h\n        while not found and i < m:\n            if A[i, k] == 1:", "    while h <= m - 1 and k < n:\n        found = False\n        i = h\n        while not found and i < m:\n            if A[i, k] == 1:"), False, "cursor bound written as h <= m - 1: the same bound"),
     ("s29", ["C02", "C03", "C04", "C09", "C17"], rep1(S + "circuit_lookup.py", "                qc.cz(qubits[0], qubits[1])", "                qc.cz(qubits[1], qubits[0])"), False, "operands of the symmetric cz given in the other order: the same gate"),
     ("s30", ["C02", "C04"], rep1(S + "circuit_lookup.py", "                qc.cx(qubits[0], qubits[1])", "                qc.cx(qubits[1], qubits[0])"), False, "cx direction swapped: breaks the state (C03/C09: m100), not coupling or cost"),
